@@ -39,10 +39,10 @@ def run(ctx):
     for in_check in (False, True):
         cg = {"IN_CHECK": sym.TRUE if in_check else sym.FALSE}
         for piece in ("Pawn", "Knight", "Bishop", "Rook", "Queen"):
-            if piece in movegen.GEN:
-                body, paths, sites = movegen.extract_sites(f, L, movegen.GEN[piece], cg)
+            if piece in ("Pawn", "Knight", "King"):
+                body, paths, sites = movegen.extract_sites(f, L, movegen.gen_key(f, piece), cg)
             else:
-                body, paths, sites = movegen.extract_sites(f, L, movegen.SLIDER, cg, {"P": movegen.SLIDER_TYPES[piece]})
+                body, paths, sites = movegen.extract_sites(f, L, movegen.slider_key(f), cg, {movegen.tparam(f): movegen.slider_types(f)[piece]})
             loops = [s.loop for s in sites if s.loop is not None]
             total_sites += len(sites)
             ctx.check(len(loops) == len(sites), "%s:%s:in-loop" % (piece, in_check),
